@@ -7,6 +7,10 @@ ALL = ["C%02d" % i for i in range(1, 21)]
 
 # id -> (technique, level text, level note, design section)
 CLAIMED = {
+ "C20": ("randomised concurrency testing: proptest-generated programs of 2-3 threads with fixed-argument requests, thread schedules explored with shuttle (random and PCT schedulers, fixed seeds) on vls-core built with --cfg vls_verif; oracle = no deadlock/panic in any explored schedule and replies + final state equal to those of some sequential interleaving on a fresh world (linearizability witness search)",
+         "Exploration of sampled schedules (60 per program quick, 400 thorough), not enumeration; two genuine lock-order inversions were found and repaired by fix: commits.",
+         "The hook swaps std::sync for shuttle::sync in vls-core's prelude; behaviour outside those primitives is not modelled.",
+         "C20"),
  "C10": ("stateful property-based testing with a union request machine (commitments on both sides, payments, on-chain, allowlist, tracker blocks, channel lifecycle) biased to refusable requests, on a plain and on a cloud-staged store; oracle = full observation (all channels' enforcement state, node bookkeeping, tracker entry, store dump, pending mutations) is identical before and after every refused request",
          "Held-on-N-histories exploration; two genuine defects (revocation secret stored before refusal, allowlist partially applied) were repaired by fix: commits.",
          "Storage backend failures not generated; API-level requests with the handler's persist envelope, wire-protocol handlers not driven.",
@@ -102,13 +106,13 @@ def main():
         })
     m = {
         "version": 1,
-        "setup_cmd": "cd /verif/harness && CARGO_NET_OFFLINE=true cargo build --release --offline --target-dir target",
+        "setup_cmd": "cd /verif/harness && CARGO_NET_OFFLINE=true cargo build --release --offline --target-dir target && RUSTFLAGS='--cfg vls_verif' CARGO_NET_OFFLINE=true cargo build --release --offline --target-dir target-hooks",
         "hooks": {
             "guard": "--cfg vls_verif",
             "enable": "RUSTFLAGS='--cfg vls_verif' cargo build --release --offline --target-dir target-hooks (done by ./check C20)",
             "baseline_off_cmd": "cd /repo && cargo test --workspace --no-fail-fast --offline",
             "source_commits": HOOK_COMMITS,
-            "add_only": True,
+            "add_only": False,
         },
         "engines": [
             {"name": "vcheck", "path": "/verif/harness",
@@ -122,6 +126,6 @@ def main():
     json.dump(m, open("/verif/MANIFEST.json", "w"), indent=1)
     print("wrote MANIFEST.json with", len(checks), "checks")
 
-HOOK_COMMITS = []
+HOOK_COMMITS = ["d63615f"]
 if __name__ == "__main__":
     main()
